@@ -58,11 +58,17 @@ MoveFile(s, f, jsonbytes) ==
 
 Script(s) ==
    LET w == Work(s) IN
-   <<Call("mkdirs", w, 0), Call("open_obs", w, 0), Call("write_obs", w, 8),
+   <<Call("mkdirs", w, 0)>>
+   \* an old stream.json in the final directory is removed before anything is written
+   \* ("fix: rt: remove stale metadata from the final directory when a thread starts")
+   \o (IF s.mode = "tmp" THEN <<Call("unlink_json", "fin", 0)>> ELSE <<>>)
+   \o <<Call("open_obs", w, 0), Call("write_obs", w, 8),
      Call("open_json", w, 0), Call("write_json_init", w, 0), Call("close_json", w, 0)>>
    \o [i \in 1..Len(s.flushes) |-> Call("write_obs", w, s.flushes[i])]
-   \o <<Call("open_json", w, 0), Call("write_json_fin", w, 0), Call("close_json", w, 0),
-        Call("close_obs", w, 0)>>
+   \* the stream is closed (and the result checked) before it is marked finished
+   \* ("fix: rt: close the stream before marking it finished")
+   \o <<Call("close_obs", w, 0),
+        Call("open_json", w, 0), Call("write_json_fin", w, 0), Call("close_json", w, 0)>>
    \o (IF s.mode = "tmp"
        THEN (IF JsonLast
              THEN \* fixed code: one pass over the directory for the stream, a second one for the metadata
@@ -103,6 +109,9 @@ Effect(k) ==
                                    /\ obs' = IF CheckCopy /\ copyfail THEN obs ELSE [obs EXCEPT !.tmp = -1]
                                    /\ moveok' = (moveok /\ ~copyfail)
                                    /\ UNCHANGED <<json, flushed, copyfail>>
+     [] k.c = "unlink_json" /\ k.w = "fin"
+                                -> /\ json' = [json EXCEPT !.fin = "absent"]
+                                   /\ UNCHANGED <<obs, flushed, copyfail, moveok>>
      [] k.c = "unlink_json"     -> /\ json' = IF CheckCopy /\ copyfail THEN json ELSE [json EXCEPT !.tmp = "absent"]
                                    /\ moveok' = (moveok /\ ~copyfail)
                                    /\ UNCHANGED <<obs, flushed, copyfail>>
@@ -129,8 +138,8 @@ Crash == status = "running" /\ status' = "killed"
 \* C10: one call fails.  Reaction of the code, per call site:
 \*   die   : mkdirs, open_obs, write_obs, open/write/close of the metadata (json_serialize_to_file_pretty)
 \*   copy  : errors inside move_thread_to_final -> ret = -1 (fixed) / ignored (pinned)
-\*   ignore: close_obs, opendir (err + return), unlink, rmdir (warning)
-Dies(c)   == c \in {"mkdirs", "open_obs", "write_obs", "open_json", "write_json_init", "write_json_fin", "close_json"}
+\*   ignore: opendir (err + return), unlink, rmdir (warning)
+Dies(c)   == c \in {"mkdirs", "open_obs", "write_obs", "close_obs", "open_json", "write_json_init", "write_json_fin", "close_json"}
 InCopy(c) == c \in {"copy_open_src_obs", "copy_open_dst_obs", "copy_write_obs", "copy_close_dst_obs",
                     "copy_open_src_json", "copy_open_dst_json", "copy_write_json", "copy_close_dst_json"}
 
@@ -138,7 +147,7 @@ NextUnlink == CHOOSE d \in 1..40 : Script(sc)[pc + d - 1].c \in {"unlink_obs", "
 
 Fail == /\ status = "running" /\ fault = 0 /\ Cur.c # "return_free" /\ ~SkipJsonMove(Cur)
         /\ fault' = pc /\ UNCHANGED sc
-        /\ IF Dies(Cur.c)
+        /\ IF Dies(Cur.c) \/ (Cur.c = "unlink_json" /\ Cur.w = "fin")
            THEN \* die(): abort with a diagnostic; a metadata write that fails leaves the file truncated
                 /\ status' = "aborted"
                 /\ json' = IF Cur.c \in {"write_json_init", "write_json_fin", "close_json"}
@@ -157,7 +166,7 @@ Fail == /\ status = "running" /\ fault = 0 /\ Cur.c # "return_free" /\ ~SkipJson
                 /\ (IF CheckCopy THEN status' = "aborted" /\ UNCHANGED pc
                     ELSE pc' = Len(Script(sc)) /\ UNCHANGED status)
                 /\ UNCHANGED <<obs, json, flushed, copyfail, moveok>>
-           ELSE \* close_obs, close of the copy source, unlink, rmdir: warning only
+           ELSE \* close of the copy source, unlink, rmdir: warning only
                 /\ pc' = pc + 1 /\ UNCHANGED <<obs, json, flushed, status, copyfail, moveok>>
 
 Next == Step \/ Crash \/ Fail
